@@ -1,7 +1,8 @@
 """C10 — ref-counted blocks: refcount model inside the harness + accounting allocator, under ASan+UBSan."""
 from vf import build, framework as fw
 
-RULE = ("every size 0..4096 with and without destructor is created, written, referenced and released "
+RULE = ("[two allocators are configured alternately through m_set_memhook between sequences: every block must come from and go back to the one configured then; every third destructor takes and drops a reference on the block it destroys; sizes SIZE_MAX-k must be refused] "
+        "every size 0..4096 with and without destructor is created, written, referenced and released "
         "(exhaustive sub-space); then random sequences of new/ref/unref/unrefp/size/NULL-calls/ownership edges "
         "(nested destructors releasing other blocks) on up to 48 blocks; a sequence is non-trivial when at least "
         "one block held >1 reference or a destructor released other blocks; distinct = hash of the op/refcount sequence")
